@@ -90,7 +90,7 @@ impl Indexable for ast::BangOperator {
                     }
                 }
 
-                Some(TY![bit])
+                Some(TY![int])
             }
             SyntaxKind::XEq | SyntaxKind::XNe => {
                 common::unexpect_type_annotation(ctx, self);
@@ -430,7 +430,7 @@ impl Indexable for ast::BangOperator {
                 common::expect_type_annotation(ctx, self);
                 let values = common::expect_values(ctx, self, 1..=1);
                 common::index_values(ctx, values);
-                Some(TY![bit])
+                Some(TY![int])
             }
             SyntaxKind::XListConcat => {
                 common::unexpect_type_annotation(ctx, self);
@@ -544,7 +544,7 @@ impl Indexable for ast::BangOperator {
                     }
                 }
 
-                Some(TY![bit])
+                Some(TY![int])
             }
             SyntaxKind::XRange => {
                 common::unexpect_type_annotation(ctx, self);
